@@ -37,6 +37,11 @@ def run(ctx) -> None:
     from . import c05
 
     ctx.reuse("C14.transfer-composition", c05.owner)
+    ctx.reuse("C14.transfer-composition", c05.read_exact)
+    # volumes above the worklist's max_volume are split by partition_volume: the parts add up
+    from . import c06
+
+    ctx.reuse("C14.split-sum", c06.partition_volume)
 
 
 def _init(ctx, rule):
